@@ -52,7 +52,13 @@ def check_queries(node, inp, sub='expr', vinp=None):
         raise Violation(sub, f'external_references:{core.exc_sig(r)}', vinp, f'external_references() of {text!r} raised {type(r).__name__}: {r}')
     if set(r) != free:
         bad('external_references()', sorted(r), sorted(free))
-    names = sorted(set(NAMES) | {n.token[1:] for n in astx.preorder(node) if astx.cname(n) == 'HplVarReference'})
+    occurring = {n.token[1:] for n in astx.preorder(node) if astx.cname(n) == 'HplVarReference'}
+    occurring |= {n.variable for n in astx.preorder(node) if astx.cname(n) == 'HplQuantifier'}
+    # names that merely resemble an occurring one (a suffix, a prefix, one more / one less character, other case) are asked too
+    near = set()
+    for n in sorted(occurring)[:4]:
+        near |= {n[1:], n[:-1], n[-1:], n[:1], n + 'x', 'x' + n, n.swapcase(), n + '_'}
+    names = sorted((set(NAMES) | occurring | near) - {''})
     for nm in names:
         st, r = core.guarded(node.contains_reference, nm)
         if st == 'exc' or bool(r) != astx.mentions_var(node, nm):
